@@ -192,7 +192,9 @@ class C09(Prop):
             elif c["fkind"] == "numeric" and rng.random() < 0.3:
                 # the float feature as a plain Python list, also one whose first element is a numpy integer scalar
                 c["fcontainer"] = rng.choice(["list", "list_npint_first", "list_npint_first"])
-                if c["fcontainer"] == "list_npint_first" and isinstance(c["feature"][0], float) and math.isfinite(c["feature"][0]):
+                if (c["fcontainer"] == "list_npint_first" and isinstance(c["feature"][0], float) and math.isfinite(c["feature"][0])
+                        and (c["w"] is None or all(v > 0 for v in c["w"]))):
+                    # (not with zero weights: they were placed so that every group keeps a positive total, which moving a value breaks)
                     c["feature"] = [float(round(c["feature"][0]))] + c["feature"][1:]
             yield c
 
